@@ -6,6 +6,7 @@ package main
 import (
 	"fmt"
 	"go/types"
+	"os"
 	"strings"
 
 	"golang.org/x/tools/go/ssa"
@@ -121,6 +122,16 @@ func (vc *VC) applyContractOn(callee *ssa.Function, args []Term, preIn *Heap, r 
 	key := vc.prog.keyOf[callee]
 	if key == "" {
 		key = callee.String()
+	}
+	if c == nil && vc.inlinable(callee) {
+		// a small helper without a contract is checked as part of its caller (its body is executed in place):
+		// extracting a helper from a function under contract neither weakens nor breaks the caller's proof
+		post := preIn.clone()
+		rr := r
+		res := vc.inlineCall(callee, args, post, &rr)
+		rOverride = rr
+		vc.inlined[key] = true
+		return res, post
 	}
 	pre := preIn.clone()
 	env := &Env{vc: vc, vars: map[string]Term{}, cur: pre, old: pre, pkg: callee.Pkg.Pkg}
@@ -357,7 +368,9 @@ func (vc *VC) execInvoke(c *ssa.CallCommon, h *Heap, reach *string) []Term {
 				self = vc.loadPtr(h0, self, and(*reach, g), false)
 			}
 		}
+		vc.viaDispatch++
 		res, post := vc.applyContractOn(im.Fn, append([]Term{self}, args...), h0, and(*reach, g))
+		vc.viaDispatch--
 		brs = append(brs, branch{g, res, post})
 	}
 	for i := len(brs) - 1; i >= 0; i-- {
@@ -860,4 +873,161 @@ func (vc *VC) checkOnPanic(hp *Heap, r string, what string) {
 		}
 		vc.oblige("onpanic", fmt.Sprintf("onpanic.%s.%d", vc.contract.clauseName(cl, i), k), cl.Tags, r, s, cl.Src+"   [left by a panic at: "+what+"]")
 	}
+}
+
+// inlinable: a module function without contract that is small, loop-free, defer-free and not already being
+// inlined (no recursion)
+func (vc *VC) inlinable(fn *ssa.Function) bool {
+	if noInline || vc.viaDispatch > 0 || fn == nil || fn.Pkg == nil || !isModulePkg(fn.Pkg.Pkg) || len(fn.Blocks) == 0 || fn == vc.fn || vc.inlining[fn] || len(vc.inlining) >= 2 {
+		return false
+	}
+	if fn.Recover != nil || len(vc.prog.loopHeaders(fn)) != 0 || len(fn.FreeVars) != 0 {
+		return false
+	}
+	n := 0
+	for _, b := range fn.Blocks {
+		n += len(b.Instrs)
+		for _, in := range b.Instrs {
+			switch in.(type) {
+			case *ssa.Defer, *ssa.Go, *ssa.Select, *ssa.Range, *ssa.Next:
+				return false
+			}
+		}
+	}
+	return n <= 80
+}
+
+var noInline = os.Getenv("GOVC_NOINLINE") != ""
+
+// inlineCall executes the body of fn in place: parameters are bound to the arguments, the acyclic control
+// flow graph is walked in reverse post-order with states merged at joins, and the results of the return
+// statements are merged into the results of the call.
+func (vc *VC) inlineCall(fn *ssa.Function, args []Term, h *Heap, reach *string) []Term {
+	if vc.inlining == nil {
+		vc.inlining = map[*ssa.Function]bool{}
+	}
+	vc.inlining[fn] = true
+	defer delete(vc.inlining, fn)
+	for i, p := range fn.Params {
+		if i < len(args) {
+			t := args[i]
+			t.T = p.Type()
+			vc.vals[p] = t
+		}
+	}
+	saveFn, saveBlock, saveTag := vc.fn, vc.curBlock, vc.tagBlock
+	if vc.tagBlock == nil {
+		vc.tagBlock = vc.curBlock
+	}
+	saveDefers := vc.defers
+	vc.defers = nil
+	defer func() { vc.fn, vc.curBlock, vc.tagBlock, vc.defers = saveFn, saveBlock, saveTag, saveDefers }()
+	type st struct {
+		reach string
+		h     *Heap
+		from  *ssa.BasicBlock
+	}
+	in := map[*ssa.BasicBlock][]st{}
+	in[fn.Blocks[0]] = []st{{*reach, h.clone(), nil}}
+	type exit struct {
+		reach string
+		h     *Heap
+		res   []Term
+	}
+	var exits []exit
+	for _, b := range rpo(fn) {
+		ins := in[b]
+		if len(ins) == 0 {
+			continue
+		}
+		var r string
+		var hb *Heap
+		if len(ins) == 1 {
+			r, hb = ins[0].reach, ins[0].h
+		} else {
+			var rs []string
+			for _, x := range ins {
+				rs = append(rs, x.reach)
+			}
+			r = vc.define("inl_reach", SBool, or(rs...))
+			hb = ins[len(ins)-1].h.clone()
+			for i := len(ins) - 2; i >= 0; i-- {
+				vc.mergeGuarded(hb, ins[i].h, ins[i].reach)
+			}
+		}
+		cur := r
+		for _, instr := range b.Instrs {
+			switch x := instr.(type) {
+			case *ssa.Phi:
+				// the value of the edge that was taken
+				s := vc.u.sortOf(x.Type())
+				term := ""
+				for k := len(ins) - 1; k >= 0; k-- {
+					idx := -1
+					for pi, pb := range b.Preds {
+						if pb == ins[k].from {
+							idx = pi
+						}
+					}
+					if idx < 0 {
+						continue
+					}
+					v := vc.value(x.Edges[idx]).S
+					if term == "" {
+						term = v
+					} else {
+						term = ite(ins[k].reach, v, term)
+					}
+				}
+				if term == "" {
+					panic(unsupportedErr("phi without incoming edge in an inlined function"))
+				}
+				vc.vals[x] = mk(vc.define("inl_"+x.Name(), s, term), s).withType(x.Type())
+			case *ssa.If:
+				c := vc.value(x.Cond).S
+				in[b.Succs[0]] = append(in[b.Succs[0]], st{vc.define("inl_edge", SBool, and(cur, c)), hb.clone(), b})
+				in[b.Succs[1]] = append(in[b.Succs[1]], st{vc.define("inl_edge", SBool, and(cur, not(c))), hb.clone(), b})
+			case *ssa.Jump:
+				in[b.Succs[0]] = append(in[b.Succs[0]], st{cur, hb.clone(), b})
+			case *ssa.Return:
+				var res []Term
+				for _, rv := range x.Results {
+					res = append(res, vc.value(rv))
+				}
+				exits = append(exits, exit{cur, hb, res})
+			case *ssa.Panic:
+				vc.safety("explicit", cur, "false", "panic() in inlined "+fn.Name())
+				cur = "false"
+			default:
+				vc.curBlock = saveBlock
+				cur = vc.execInstr(b, instr, hb, cur)
+			}
+		}
+	}
+	if len(exits) == 0 {
+		*reach = "false"
+		return vc.resultTerms(fn.Signature, h, "false", "inl")
+	}
+	out := exits[len(exits)-1].h.clone()
+	var rs []string
+	for _, e := range exits {
+		rs = append(rs, e.reach)
+	}
+	for i := len(exits) - 2; i >= 0; i-- {
+		vc.mergeGuarded(out, exits[i].h, exits[i].reach)
+	}
+	*h = *out
+	*reach = vc.define("inl_ret", SBool, or(rs...))
+	n := fn.Signature.Results().Len()
+	res := make([]Term, n)
+	for i := 0; i < n; i++ {
+		t := fn.Signature.Results().At(i).Type()
+		s := vc.u.sortOf(t)
+		term := exits[len(exits)-1].res[i].S
+		for k := len(exits) - 2; k >= 0; k-- {
+			term = ite(exits[k].reach, exits[k].res[i].S, term)
+		}
+		res[i] = mk(vc.define("inl_res", s, term), s).withType(t)
+	}
+	return res
 }
